@@ -43,6 +43,21 @@ class SlowFirst:
         return float(np.real(qutip.expect(qutip.sigmaz(), state)))
 
 
+class _SlowFor:
+    """expectation callback (picklable) that takes its time for states close to one given state"""
+    def __init__(self, ket, delay):
+        self.v = ket.full().ravel()
+        self.delay = delay
+
+    def __call__(self, t, state):
+        import time
+        x = state.full()
+        x = x.ravel() if x.shape[1] == 1 else None
+        if x is not None and t == 0 and abs(np.vdot(self.v, x)) > 0.999:
+            time.sleep(self.delay)
+        return 0.0
+
+
 def nm_rate(t, amp):
     return 0.5 - amp * np.sin(2.5 * t)
 
@@ -130,7 +145,9 @@ def relational(rep, tier, rng):
     from numpy.random import SeedSequence
     viol = []
     eops = [qutip.sigmaz(), qutip.sigmax()]
-    names = ["mc", "nm_mc", "sse", "sme", "mc:vern7", "nm_mc:vern9", "smefb:rouchon", "smefb:platen", "smefbH:platen"]
+    names = ["mc", "nm_mc", "sse", "sme", "mc:vern7", "nm_mc:vern9", "smefb:rouchon", "smefb:platen", "smefbH:platen",
+             # schemes of order 1.5 draw a second family of random numbers per step
+             "sme:taylor1.5", "sse:explicit1.5"]
 
     def make_solver2(nm, **kw):
         # "solver:method" runs the solver with that integration method (explicit Runge-Kutta integrators keep step-size state)
@@ -315,6 +332,48 @@ def relational(rep, tier, rng):
         raise
     except Exception as e:      # noqa
         viol.append(("mixed-raises:mc", f"mixed initial state: {type(e).__name__}: {e}"[:200]))
+    # ---- improved sampling of a mixed initial state with worker processes: the no-jump run of each member state finishes in
+    #      whatever order (the first member's is made the slowest), the weights and every (seed, member) trajectory are those of
+    #      the serial run
+    try:
+        H, c, psi0 = problem()
+        a_ = psi0
+        b_ = (qutip.basis(2, 1) - a_.overlap(qutip.basis(2, 1)) * a_).unit()
+        rho0 = 0.375 * a_.proj() + 0.625 * b_.proj()
+        seeds_i = SeedSequence(777).spawn(6)
+        oi = {"progress_bar": "", "keep_runs_results": True, "store_states": True, "improved_sampling": True}
+        slow = _SlowFor(a_, 0.4)
+        with core.time_limit(600):
+            rs = qutip.MCSolver(H, c, options=oi).run(rho0, TL, ntraj=6, e_ops=[qutip.sigmaz(), slow], seeds=list(seeds_i))
+            rp = qutip.MCSolver(H, c, options=dict(oi, map="parallel", num_cpus=3)).run(rho0, TL, ntraj=6, e_ops=[qutip.sigmaz(), slow], seeds=list(seeds_i))
+        rep.count("relational-improved-mixed-parallel")
+        rep.evaluations += 1
+        ws, wp = np.asarray(rs.deterministic_weights, dtype=float), np.asarray(rp.deterministic_weights, dtype=float)
+        if ws.shape != wp.shape or np.abs(ws - wp).max() > 1e-10:
+            viol.append(("improved-mixed-parallel:weights", f"improved sampling of a mixed state: the no-jump weights are {wp.tolist()} with worker processes and {ws.tolist()} serially"))
+        else:
+            def keyed(res):
+                out = {}
+                for j in range(len(res.seeds)):
+                    out[seed_key(res.seeds[j])] = ({"ct": np.array(res.col_times[j], dtype=float), "e": np.array(res.runs_expect[0][j]),
+                                                    "s0": np.array(res.runs_states[j][0].full())}, float(np.asarray(res.runs_weights, dtype=float).ravel()[j]))
+                return out
+            ks, kp = keyed(rs), keyed(rp)
+            if set(ks) != set(kp):
+                viol.append(("improved-mixed-parallel:seeds", "improved sampling of a mixed state: the serial run and worker processes report different seeds"))
+            else:
+                for key in ks:
+                    d = same(ks[key][0], kp[key][0])
+                    if d:
+                        viol.append(("improved-mixed-parallel:trajectory", f"improved sampling of a mixed state: the trajectory of seed {key} differs between the serial run and worker processes ({d})"))
+                        break
+                    if abs(ks[key][1] - kp[key][1]) > 1e-10:
+                        viol.append(("improved-mixed-parallel:weights", f"improved sampling of a mixed state: the weight of the trajectory of seed {key} is {kp[key][1]} with worker processes and {ks[key][1]} serially"))
+                        break
+    except core.CaseTimeout:
+        raise
+    except Exception as e:      # noqa
+        viol.append(("improved-mixed-parallel:raises", f"{type(e).__name__}: {e}"[:200]))
     # ---- a returned result is a value: what the solver object does afterwards (other measurement settings, other runs)
     #      does not change it, and the later run is what a fresh solver with those settings gives
     for nm, het in (("sse", False), ("sme", False), ("sme", True)):
